@@ -1,8 +1,90 @@
 From Coq Require Import List NArith Bool.
 Import ListNotations.
-Require Import MV.C15.Model MV.C15.Spec MV.C15.Exec.
+Require Import MV.C15.Model MV.C15.Spec MV.C15.Exec MV.C15.ProofsHist MV.C15.ProofsDist MV.C15.ExecProofs.
 Open Scope N_scope.
 Require Import MV.C15.Properties.
 
-Check (C15_placeholder : True).
-Print Assumptions C15_placeholder.
+Check (C15_bucket_counts : forall (O : FloatOps),
+  (forall a b c : F O, fle O a b = true -> fle O b c = true -> fle O a c = true) ->
+  forall bounds h0 ops, hist_new O bounds = Some h0 -> ascending O bounds = true ->
+  h_buckets O (hfinal O h0 ops) = map (fun b => count_le O b (all_samples O ops)) bounds
+  /\ h_count O (hfinal O h0 ops) = N.of_nat (length (all_samples O ops))
+  /\ h_bounds O (hfinal O h0 ops) = bounds).
+Print Assumptions C15_bucket_counts.
+Check (C15_count_is_number_of_samples : forall (O : FloatOps) bounds h0 ops, hist_new O bounds = Some h0 ->
+  h_count O (hfinal O h0 ops) = N.of_nat (length (all_samples O ops))).
+Print Assumptions C15_count_is_number_of_samples.
+Check (C15_counts_monotone_in_bound : forall (O : FloatOps),
+  (forall a b c : F O, fle O a b = true -> fle O b c = true -> fle O a c = true) ->
+  forall a b samples, fle O a b = true -> count_le O a samples <= count_le O b samples).
+Print Assumptions C15_counts_monotone_in_bound.
+Check (C15_counts_monotone_in_time : forall (O : FloatOps) b samples more,
+  count_le O b samples <= count_le O b (samples ++ more)).
+Print Assumptions C15_counts_monotone_in_time.
+Check (C15_every_bucket_at_most_inf_bucket : forall (O : FloatOps) b samples,
+  count_le O b samples <= N.of_nat (length samples)).
+Print Assumptions C15_every_bucket_at_most_inf_bucket.
+Check (C15_nan_in_no_bucket : forall (O : FloatOps) s samples b, (forall x, fle O s x = false) ->
+  count_le O b (samples ++ [s]) = count_le O b samples).
+Print Assumptions C15_nan_in_no_bucket.
+Check (C15_batch_equals_single : forall (O : FloatOps),
+  (forall a b c : F O, fle O a b = true -> fle O b c = true -> fle O a c = true) ->
+  forall bounds h0 ops1 ops2, hist_new O bounds = Some h0 -> ascending O bounds = true ->
+  all_samples O ops1 = all_samples O ops2 ->
+  h_buckets O (hfinal O h0 ops1) = h_buckets O (hfinal O h0 ops2)
+  /\ h_count O (hfinal O h0 ops1) = h_count O (hfinal O h0 ops2)).
+Print Assumptions C15_batch_equals_single.
+Check (C15_spec_ok_on_model_partial : forall (O : FloatOps),
+  (forall a b c : F O, fle O a b = true -> fle O b c = true -> fle O a c = true) ->
+  (forall a : F O, fsame O a a = true) ->
+  forall bounds ops, gspec_ok O (CHist O bounds ops) (grun_case O (CHist O bounds ops)) = true).
+Print Assumptions C15_spec_ok_on_model_partial.
+Check (C15_spec_ok_sound_hist : forall (O : FloatOps) bounds done cs cnt sm,
+  snap_ok O bounds done (cs, cnt, sm) = true ->
+  cnt = N.of_nat (length (all_samples O done))
+  /\ fsame O sm (spec_sum O done) = true
+  /\ (ascending O bounds = true -> cs = map (fun b => count_le O b (all_samples O done)) bounds)).
+Print Assumptions C15_spec_ok_sound_hist.
+Check (C15_override_precedence_partial : forall (O : FloatOps) fixed san global ovs name,
+  match get_distribution O (db_new O fixed san global ovs) name with
+  | Some b =>
+      (exists m, In (m, b) (held O fixed san ovs) /\ matches fixed m name = true /\
+                 forall x, In x (held O fixed san ovs) -> matches fixed (fst x) name = true ->
+                           mrank (fst m) <= mrank (fst (fst x)))
+      \/ ((forall x, In x (held O fixed san ovs) -> matches fixed (fst x) name = false) /\ global = Some b)
+  | None => (forall x, In x (held O fixed san ovs) -> matches fixed (fst x) name = false) /\ global = None
+  end).
+Print Assumptions C15_override_precedence_partial.
+Check (C15_type_histogram_iff_distribution_histogram : forall (O : FloatOps) (d : dbuilder O) name,
+  get_distribution_type O d name = true <-> get_distribution O d name <> None).
+Print Assumptions C15_type_histogram_iff_distribution_histogram.
+Check (C15_matcher_sound_prefix : forall fixed p r,
+  matches fixed (matcher_sanitized fixed (MPrefix, p)) (sanitize_name (p ++ r)) = true).
+Print Assumptions C15_matcher_sound_prefix.
+Check (C15_matcher_sound_full : forall fixed n,
+  matches fixed (matcher_sanitized fixed (MFull, n)) (sanitize_name n) = true).
+Print Assumptions C15_matcher_sound_full.
+Check (C15_matcher_sound_suffix_partial : forall pre p, pre <> [] ->
+  matches true (matcher_sanitized true (MSuffix, p)) (sanitize_name (pre ++ p)) = true).
+Print Assumptions C15_matcher_sound_suffix_partial.
+Check (C15_matcher_suffix_refuted_before_fix : exists pre p, pre <> [] /\
+  matches false (matcher_sanitized false (MSuffix, p)) (sanitize_name (pre ++ p)) = false).
+Print Assumptions C15_matcher_suffix_refuted_before_fix.
+Check (C15_suffix_override_refuted_before_fix : exists c : gcase ZO, (match c with CDist _ fixed _ _ _ _ => fixed = false | _ => False end)
+                       /\ gspec_ok ZO c (grun_case ZO c) = false).
+Print Assumptions C15_suffix_override_refuted_before_fix.
+Check (C15_window_count_counts_all : forall (O : FloatOps) ops r,
+  r_count O (rfinal O r ops) = r_count O r + adds O ops).
+Print Assumptions C15_window_count_counts_all.
+Check (C15_window_snapshot_merges_unexpired_partial : forall (O : FloatOps) (r : rsum O) now v,
+  In v (rs_snapshot O r now) <->
+  exists b, In b (r_buckets O r) /\ In v (rb_vals O b) /\
+            (r_maxdur O r <= now -> now - r_maxdur O r < rb_begin O b)).
+Print Assumptions C15_window_snapshot_merges_unexpired_partial.
+Check (C15_window_new_bucket_covers_sample_partial : forall dur reftime now, 0 < dur -> reftime <= now ->
+  next_begin dur reftime now <= now /\ now < next_begin dur reftime now + dur).
+Print Assumptions C15_window_new_bucket_covers_sample_partial.
+Check (C15_hypotheses_satisfiable : (forall a b c : F ZO, fle ZO a b = true -> fle ZO b c = true -> fle ZO a c = true)
+  /\ (forall a : F ZO, fsame ZO a a = true)
+  /\ (forall x : F ZO, fle ZO None x = false)).
+Print Assumptions C15_hypotheses_satisfiable.
